@@ -8,6 +8,7 @@ import (
 	"verifharness/drv/cf"
 	"verifharness/drv/fwd"
 	"verifharness/drv/hb"
+	"verifharness/drv/re"
 	"verifharness/drv/ts"
 )
 
@@ -27,6 +28,8 @@ func main() {
 		os.Exit(cf.RecoverMain(os.Args[2:]))
 	case "ts":
 		os.Exit(ts.Main(os.Args[2:]))
+	case "re":
+		os.Exit(re.Main(os.Args[2:]))
 	case "hb":
 		os.Exit(hb.Main(os.Args[2:]))
 	default:
